@@ -224,6 +224,22 @@ func (m *lMachine) c19Apply(i int, op lOp) {
 			}
 		}
 		m.ok["oprice"]++
+	case "feegift":
+		// anybody can send coins to a pair's swap-fee collector; here: the app's fee-distribution token, which the
+		// swap-fee gauges of the pair's pools share out at the next epoch
+		lp := cfg.Pairs[op.Pair]
+		app := cfg.Apps[lp.App].ID
+		if params, err := m.k.GetGenericParams(c.Ctx, app); err == nil {
+			if pair, ok := m.k.GetPair(c.Ctx, app, lp.ID); ok {
+				from := c.Accs[op.Actor].Addr
+				coin := sdk.NewCoin(params.SwapFeeDistrDenom, mustInt(op.A))
+				if c.Bal(from, coin.Denom).GTE(coin.Amount) {
+					if err := c.App.BankKeeper.SendCoins(c.Ctx, from, pair.GetSwapFeeCollectorAddress(), sdk.NewCoins(coin)); err == nil {
+						m.ok["feegift"]++
+					}
+				}
+			}
+		}
 	case "distr":
 		if err := m.k.UpdateGenericParams(c.Ctx, cfg.Apps[op.Pair].ID, []string{"SwapFeeDistrDenom"}, []string{op.B}); err == nil {
 			m.ok["distr"]++
